@@ -33,6 +33,7 @@ func (b *batch) Put(key []byte, val []byte) error {
 		val = make([]byte, 0)
 	}
 
+	verifPoint("batch.put.enter")
 	b.mutBatch.Lock()
 	b.batch.Put(key, val)
 	b.cachedData[string(key)] = val
@@ -43,6 +44,7 @@ func (b *batch) Put(key []byte, val []byte) error {
 
 // Delete deletes the entry for the provided key from the batch
 func (b *batch) Delete(key []byte) error {
+	verifPoint("batch.delete.enter")
 	b.mutBatch.Lock()
 	b.batch.Delete(key)
 	b.removedData[string(key)] = struct{}{}
